@@ -144,7 +144,15 @@ def gen_case(rng, tier, g):
                                              stride=i + 1))
                   for i in range(rec.nsrc)]
     else:
-        tables = [gen_table(rng, 20, minrows=8, nfields=nf, ragged=False,
+        # (a fifth of the plain sources carry short and long rows: the
+        # padding paths of the operators have to stream as well)
+        # (not under the expanding views: an empty row expands to nothing,
+        # which makes them filter-like on such data)
+        ragged = rec.profile is None and not rec.rect and \
+            rng.random() < 0.2 and not any(
+                RECIPES[n].stream and RECIPES[n].stream[0] == 'expand'
+                for n, _ in stack)
+        tables = [gen_table(rng, 20, minrows=8, nfields=nf, ragged=ragged,
                             profile=prof)
                   for _ in range(rec.nsrc)]
     # build sides stay short
